@@ -397,8 +397,20 @@ func CheckC07(p *Pkg, e *Env, r *res.Result) {
 		tg := targets[rapid.IntRange(0, len(targets)-1).Draw(t, "target")]
 		g := &ValGen{T: t, Doc: p.Doc, Ctx: "json"}
 		v := g.Gen(tg.Type, tg.Schema, 3)
+		// the zero value of the type is a value too (what a handler returns when it forgets
+		// to fill something in): it is encoded to valid JSON, or - a oneOf without a chosen
+		// alternative has no JSON form - not encoded at all
+		zero := rapid.IntRange(0, 11).Draw(t, "zero_value") == 0
+		if zero {
+			v = reflect.New(tg.Type).Elem()
+			r.Label("value:zero")
+		}
 		r.Evaluations++
 		bs, err := safeMarshal(v.Interface())
+		if zero && err != nil && classifyMarshalErr(err) == "oneOf-empty" {
+			r.Label("value:zero:refused-member-less-oneOf")
+			return
+		}
 		where := "json.Marshal"
 		fail := func(clause, msg string) {
 			clause = clause + "@" + tg.Class
